@@ -36,7 +36,7 @@ func (propC17) Plan(tier string) (int, int) {
 	if tier == "thorough" {
 		return 2000, 0
 	}
-	return 64, 0
+	return 600, 0
 }
 
 var testdataFiles = []string{"blue_16x16_lossy.webp", "gradient_8x8_lossless.webp", "red_4x4_lossless.webp", "red_4x4_lossy.webp"}
